@@ -12,9 +12,12 @@ import (
 	"sync"
 	"time"
 
+	"berty.tech/go-orbit-db/baseorbitdb"
 	"berty.tech/go-orbit-db/iface"
 	"berty.tech/go-orbit-db/stores"
 	"github.com/libp2p/go-libp2p/core/event"
+	"github.com/libp2p/go-libp2p/core/peer"
+	"github.com/libp2p/go-libp2p/p2p/host/eventbus"
 )
 
 type dbCtx struct {
@@ -152,10 +155,105 @@ func (w *World) execMultiDBOp(ctx context.Context, toks []string) (bool, error) 
 		w.switchDB(cur)
 	case "pause":
 		time.Sleep(time.Duration(atoi(toks[1])) * time.Millisecond)
+	case "exchangeall":
+		w.exchangeAll(ctx, atoi(toks[1]), atoi(toks[2]))
 	default:
 		return false, nil
 	}
 	return true, nil
+}
+
+// exchangeall p q : two peers sharing several databases meet: every store of p sees q join its topic and
+// sends its heads over the direct channel; the messages reach q's instance back to back (they sit in
+// the monitor's buffer together) and only then is q given time to handle them.
+func (w *World) exchangeAll(ctx context.Context, p, q int) {
+	cur := w.curDB
+	w.saveCurrentDB()
+	type sent struct {
+		k           int
+		msg         *Msg
+		addr, heads string
+	}
+	var msgs []sent
+	for k, d := range w.dbs {
+		if d.stores[p] == nil || d.stores[q] == nil {
+			continue
+		}
+		t := w.net.topicOf(p, d.addr)
+		if t == nil {
+			continue
+		}
+		before := w.net.SentCount()
+		t.deliverPeerEvent(ctx, &iface.EventPubSubJoin{Topic: d.addr, Peer: w.net.ids[q]})
+		var m *Msg
+		deadline := time.Now().Add(2 * time.Second)
+		for m == nil && time.Now().Before(deadline) {
+			for _, x := range w.net.Sent(before) {
+				if x.Kind == "dc" && x.From == p && x.To == q {
+					m = x
+				}
+			}
+			if m == nil {
+				time.Sleep(200 * time.Microsecond)
+			}
+		}
+		if m != nil {
+			msgs = append(msgs, sent{k: k, msg: m})
+		}
+	}
+	for i := range msgs {
+		// (declares the entries of the messages, in order, before anything is delivered)
+		w.switchDB(msgs[i].k)
+		msgs[i].addr, msgs[i].heads = w.msgHeads(msgs[i].msg)
+	}
+	// all payloads at once, then one barrier
+	w.net.mu.Lock()
+	em := w.net.emit[q]
+	w.net.mu.Unlock()
+	bus := w.peers[q].odb.EventBus()
+	sub, err := bus.Subscribe(new(baseorbitdb.EventExchangeHeads), eventbus.BufSize(256))
+	if err != nil {
+		panic(err)
+	}
+	w.barrierSeq++
+	barrierID := peer.ID(fmt.Sprintf("verif-barrier-%d", w.barrierSeq))
+	go func() {
+		for _, sm := range msgs {
+			_ = em.Emit(&iface.EventPubSubPayload{Payload: sm.msg.Payload, Peer: w.net.ids[p]})
+		}
+		_ = em.Emit(&iface.EventPubSubPayload{Payload: barrierPayload(w.dbs[0].addr), Peer: barrierID})
+	}()
+	ok := false
+	deadline := time.After(w.quiesceTimeout)
+loop:
+	for {
+		select {
+		case e := <-sub.Out():
+			if ev, isEv := e.(baseorbitdb.EventExchangeHeads); isEv && ev.Peer == barrierID {
+				ok = true
+				break loop
+			}
+		case <-deadline:
+			break loop
+		}
+	}
+	sub.Close()
+	for _, sm := range msgs {
+		w.switchDB(sm.k)
+		w.printf("op usedb %d\n", sm.k)
+		w.printf("op exchange %d %d\n", p, q)
+		w.printf("msg m%d from=%d addr=%s heads=%s\n", sm.msg.Seq, p, sm.addr, sm.heads)
+		s := w.stores[q]
+		qok := w.quiesce(s) && ok
+		w.flushLoadEnds(q, s)
+		w.printf("delivered %d quiesce=%v\n", q, qok)
+		// what the sender's database held and what the receiver's now lists
+		w.printf("burst %d db=%d from=%d sender=%s receiver=%s\n", q, sm.k, p,
+			w.names2(w.dbs[sm.k].stores[p].OpLog().Values().Slice()), w.names2(s.OpLog().Values().Slice()))
+	}
+	w.switchDB(cur)
+	w.printf("op usedb %d\n", cur)
+	w.printf("op exchangeall-done\n")
 }
 
 // observeDB is observe() with the database index and the store-event counters for that database.
